@@ -57,12 +57,14 @@ func mk(name string, small bool, lit string, l ref.V, b func() any) Val {
 func extra(name string, small bool, b func() any) Val {
 	return Val{Name: name, Build: b, Extra: true, Small: small}
 }
+
 // Named types and a struct with byte-array fields (plain data as applications really declare it).
 type (
 	NamedBytes  []byte
 	NamedString string
 	NamedInt    int
 	NamedSlice  []int
+	NamedAnys   []any // a named type whose underlying type is the generic slice itself
 	NamedMap    map[string]any
 	WithBytes   struct {
 		ID    [4]byte
